@@ -128,6 +128,53 @@ def corpus_index_clauses(ctx, e):
     return probs
 
 
+def corpus_bad_source(ctx, e):
+    """scripted: a transfer is requested from a node whose copy the index already records corrupt / suspect / absent (bytes on
+    disk damaged accordingly), for every transport route that does not itself compare a digest (hard link, scripted rsync)
+    and the ones that do; three passes of the real daemon.  Oracle ("a copy recorded healthy exists on disk with the
+    registered size"): whatever is recorded healthy in the destination group has the registered length and content."""
+    import itertools
+    import shutil
+    import dharness
+    import world as worldmod
+    probs = []
+    good = b"registered content, 4 lines\n" * 4
+    for state, tools, stype in itertools.product(["X", "M", "N"], ["none", "rsync-only", "both"], ["A", "F"]):
+        w = worldmod.World(e)
+        db = w.db
+        for m in (db.StorageTransferAction, db.ArchiveFileCopyRequest, db.ArchiveFileImportRequest, db.ArchiveFileCopy,
+                  db.ArchiveFile, db.ArchiveAcq, db.StorageNode, db.StorageGroup):
+            m.delete().execute()
+        shutil.rmtree(os.path.join(e.tmp, "roots"), ignore_errors=True)
+        src = w.node("src", w.group("g1"), stype=stype)
+        dst = w.node("dst", w.group("g2"), stype="A")
+        f = w.file(w.acq("acq"), "sub/f0.dat", good)
+        w.copy(f, src, has=state, on_disk=None if state == "N" else good[:37])       # truncated on disk
+        rq = w.req(f, src, db.StorageGroup.get(name="g2"))
+        ctl = os.path.join(e.tmp, "toolctl.json")
+        with open(ctl, "w") as fh:
+            json.dump({"mode": "ok"}, fh)
+        os.environ["VERIF_TOOL_CTL"] = ctl
+        os.environ["PATH"] = os.path.join(dharness.wharness.FAKE, tools)
+        try:
+            d = worldmod.Daemon(e, "h1")
+            for _ in range(3):
+                d.iterate()
+                d.drain()
+        finally:
+            os.environ["PATH"] = "/usr/local/bin:/usr/bin:/bin"
+        c = db.ArchiveFileCopy.get_or_none(file=f.id, node=dst.id)
+        rq = db.ArchiveFileCopyRequest.get(id=rq.id)
+        data = w.file_on(dst, f)
+        ctx.case(("corpus", "bad-source", state, tools, stype), nontrivial=True)
+        ctx.count(f"corpus:bad-source:{state}:{'completed' if rq.completed else 'cancelled' if rq.cancelled else 'pending'}")
+        if c is not None and c.has_file == "Y" and (data is None or data != good):
+            probs.append(f"a transfer from a copy recorded {state} (source class {stype}, tools installed: {tools}) was carried out and its "
+                         f"result recorded healthy at the destination although the file there is "
+                         f"{'missing' if data is None else f'{len(data)} bytes, registered {len(good)}'} (request completed={bool(rq.completed)})")
+    return probs
+
+
 def run(ctx):
     ok = common.proof_stage(ctx, MODULE)
     rng = ctx.rng
@@ -135,6 +182,8 @@ def run(ctx):
     with envmod.Env(dbfile=True) as e:     # file database: persistent daemon loops and two-worker passes need threads
         for p in corpus_index_clauses(ctx, e):
             ctx.violation("index:corpus:" + p[:40].replace(" ", "_"), p, {"kind": "corpus2", "name": "index clauses"})
+        for p in corpus_bad_source(ctx, e):
+            ctx.violation("index:corpus:bad-source", p, {"kind": "corpus2", "name": "transfer from a copy recorded bad"})
         for p in corpus_import_delete_race(e):
             ctx.violation("import-delete-race", p, {"kind": "corpus", "name": "import vs delete of one file by two workers"})
         for i in range(nh):
